@@ -47,4 +47,28 @@ theorem src_resumed_call (sops : StateOps P C Nat K (Hist P α) α) (lops : Loop
     simp only [Except.map, Except.ok.injEq] at hchain
     exact ⟨e, rfl, hchain, tie_smc_run lops e.beta_step tol cfg nfs flag fuel (stOfEntry e)⟩
 
+/-- the whole FRESH call: the translated loop and epilogue, started from the state the translated prologue produces for a call without
+    `resume_from`, are the model's `runFrom … (initSt cfg 0 p0)` with `p0` the converted initial draw - whatever an earlier call left on the
+    object -/
+theorem src_fresh_call (lops : LoopOps P W C' α) (draw : Nat → P) (conv : P → α → P) (dec : Unit → Ckpt P α) (zero nanv : α) (oneOver : Nat → α)
+    (self0 : EntrySelf (Hist P α) α) (pop0 : P) (n : Nat) (cfg : SmcCfg α) (nsteps : Option Nat) (adaptive : Bool) (ms : Option α) (mx : Option Nat)
+    (hok : nsteps.isSome = true ∨ adaptive = true)
+    (hms : cfg.minStep0 = optMinStep (opsOf draw conv dec zero nanv oneOver) ms mx) (tol : α) (nfs : Option Nat) (flag : Bool) (fuel : Nat) :
+    ∃ e, smc_prologue (opsOf draw conv dec zero nanv oneOver) self0 pop0 none n cfg.storeHistory nsteps adaptive ms mx = .ok e ∧
+      stOfEntry e = initSt cfg zero (conv (draw n) zero) ∧
+      Gen.smc_driver_run lops e.beta_step tol cfg.storeHistory cfg.every.isSome cfg.every cfg.maxSteps cfg.nFinal nfs flag fuel
+          (stOf lops (initSt cfg zero (conv (draw n) zero))) =
+        match runFrom (kitOf lops e.beta_step tol) cfg flag (initSt cfg zero (conv (draw n) zero))
+            (allStepsOf lops e.beta_step tol cfg nfs flag fuel (initSt cfg zero (conv (draw n) zero))) with
+        | .raised err => .error err
+        | .interrupted _ => .ok none
+        | .done r => .ok (some (resOf lops r)) := by
+  have h := tie_fresh_is_initSt draw conv dec zero nanv oneOver self0 pop0 n cfg nsteps adaptive ms mx hok hms
+  cases hq : smc_prologue (opsOf draw conv dec zero nanv oneOver) self0 pop0 none n cfg.storeHistory nsteps adaptive ms mx with
+  | error err => rw [hq] at h; simp [Except.map] at h
+  | ok e =>
+    rw [hq] at h
+    simp only [Except.map, Except.ok.injEq] at h
+    exact ⟨e, rfl, h, tie_smc_run lops e.beta_step tol cfg nfs flag fuel _⟩
+
 end C11Call
